@@ -706,6 +706,59 @@ class ShapeMapTrackerStep(Ob):
         return None if _norm(result["instances"]) == _norm(want) else "instances after the item: %r, expected %r" % (result["instances"], want)
 
 
+class MixedTrackerMerge(Ob):
+    """MixedInstanceTracker.track_instances over a class tracker and a shape-map tracker (all_classes_mode / target classes combined with a shape map):
+    every node keeps its classes and gains the labels of the shape-map items selecting it - also when the same node is found by both trackers;
+    a label that coincides with a class name is disambiguated with the tracker's prefix."""
+    functions = ["MixedInstanceTracker.track_instances/_integrate_dicts/_find_all_classes_in_dict/_get_label_for_ambiguous_class"]
+
+    def __init__(self, n_ref, n_new, clash):
+        self.n_ref, self.n_new, self.clash = n_ref, n_new, clash
+        self.name = "mixed_tracker_merge/ref=%d/new=%d%s" % (n_ref, n_new, "/label-clash" if clash else "")
+
+    def build(self, ex):
+        classes = ["http://ex.org/C", "http://ex.org/D"]
+        ref = {}
+        for i in range(self.n_ref):
+            ref[node(ex, "r%d" % i)] = [classes[i % 2]] if i != 1 else list(classes)
+        label = classes[0] if self.clash else "<http://sh.org/L>"
+        new = {}
+        for i in range(self.n_new):
+            new[node(ex, "m%d" % i)] = [label] if i == 0 else [label, "<http://sh.org/M>"]
+        return dict(ref=ref, new=new)
+
+    def call(self, a):
+        from shexer.core.instances.mix.mixed_instance_tracker import MixedInstanceTracker
+
+        class Tr:
+            disambiguator_prefix = "sm_"
+
+            def __init__(self, d):
+                self.d = d
+
+            def track_instances(self, verbose=True):
+                return copy_state(self.d)
+        return dict(instances=MixedInstanceTracker([Tr(a["ref"]), Tr(a["new"])]).track_instances(verbose=False))
+
+    @staticmethod
+    def _ref(ref, new):
+        post = copy_state(ref)
+        original = {c for cs in ref.values() for c in cs}
+        for n, labels in new.items():
+            if n not in post:
+                post[n] = []
+            for l in labels:
+                post[n].append("sm_" + l if l in original else l)
+        return post
+
+    def bad(self, a, result):
+        return neg(states_equal(result["instances"], self._ref(a["ref"], a["new"])))
+
+    def check(self, a, result):
+        want = self._ref(a["ref"], a["new"])
+        return None if _norm(result["instances"]) == _norm(want) else "merged instances %r, expected %r" % (result["instances"], want)
+
+
 class ClassAggregationSymbolicCount(Ob):
     """class aggregation of one instance whose number of values c is a *symbolic* integer (1 .. 10^6): the class gains exactly the cells
     [c] and ['+'] whatever c is - the solver finds any magic constant the code might treat specially."""
@@ -962,6 +1015,9 @@ def obligations(prop, tier):
         for n in (1, 2):
             for rep in (False, True):
                 out.append(ShapeMapTrackerStep(n, rep))
+        for n_ref, n_new in ((1, 1), (2, 1), (2, 2)) + (((3, 2),) if tier != "quick" else ()):
+            for clash in (False, True):
+                out.append(MixedTrackerMerge(n_ref, n_new, clash))
         for mode in ("targets", "all"):   # AllClasses+TargetClasses cannot be configured together (C20); compound = all classes + qualifiers/shape map
             for inst in (RDF_TYPE, "http://ex.org/isa", "http://www.wikidata.org/prop/direct/P31"):
                 for okind in ("iri", "bnode"):
